@@ -75,10 +75,15 @@ let run_b (imp : string) (inp : string) (obs : string) : string * string =
   let spec =
     if kind = "wf" then
       if cls <> "OK" then "FAIL:well-formed statement not imported: " ^ clip 60 base
-      else if pr <> "ok" && rows <> "ok" then "FAIL:print=" ^ pr ^ "; rows=" ^ rows
-      else if pr <> "ok" then "FAIL:print=" ^ pr
-      else if rows <> "ok" then "FAIL:rows=" ^ rows
-      else statement_spec ()
+      else
+        (* the statement-level verdict is evaluated whatever the observer's verdicts say (a known finding of the
+           row reader, e.g. cumulus' payment rows, must not hide a wrong journal) *)
+        let st = statement_spec () in
+        let also = if st = "ok" then "" else "; " ^ String.sub st 5 (String.length st - 5) in
+        if pr <> "ok" && rows <> "ok" then "FAIL:print=" ^ pr ^ "; rows=" ^ rows ^ also
+        else if pr <> "ok" then "FAIL:print=" ^ pr ^ also
+        else if rows <> "ok" then "FAIL:rows=" ^ rows ^ also
+        else st
     else "ok" (* a damaged statement or flag: outside C13; model and binary are still compared *) in
   let model_line = if model = "PANIC" && cls = "PANIC" then base else model in
   (model_line ^ " | print=" ^ pr ^ " | rows=" ^ rows, spec)
